@@ -22,18 +22,20 @@ theorem reverseTopoAuth_mapEq {am am' : List Event} (h : MapEq am am') (ce : Opt
   have hs : senderPower am ce = senderPower am' ce := funext (senderPower_mapEq h ce)
   unfold reverseTopoAuth; rw [hs]
 
-theorem mainlineIter_succ (am : List Event) (fuel : Nat) (e : Event) (acc : List Event) :
-    mainlineIter am (fuel + 1) e acc =
+theorem mainlineIter_succ (am : List Event) (fuel : Nat) (path : List ID) (e : Event) (acc : List Event) :
+    mainlineIter am (fuel + 1) path e acc =
       (e.authEventIDs.filterMap (findByID am)).foldl
-        (fun a p => if isPLEvent p then mainlineIter am fuel p a else a) (e :: acc) := rfl
+        (fun a p => if isPLEvent p && !path.contains p.eventID then mainlineIter am fuel (p.eventID :: path) p a else a)
+        (e :: acc) := rfl
 
-theorem mainlineIter_mapEq {am am' : List Event} (h : MapEq am am') (fuel : Nat) (e : Event) (acc : List Event) :
-    mainlineIter am fuel e acc = mainlineIter am' fuel e acc := by
-  induction fuel generalizing e acc with
+theorem mainlineIter_mapEq {am am' : List Event} (h : MapEq am am') (fuel : Nat) (path : List ID) (e : Event)
+    (acc : List Event) : mainlineIter am fuel path e acc = mainlineIter am' fuel path e acc := by
+  induction fuel generalizing path e acc with
   | zero => rfl
   | succ fuel ih =>
-    have hstep : (fun (a : List Event) (p : Event) => if isPLEvent p then mainlineIter am fuel p a else a) =
-        (fun a p => if isPLEvent p then mainlineIter am' fuel p a else a) := by
+    have hstep : (fun (a : List Event) (p : Event) =>
+          if isPLEvent p && !path.contains p.eventID then mainlineIter am fuel (p.eventID :: path) p a else a) =
+        (fun a p => if isPLEvent p && !path.contains p.eventID then mainlineIter am' fuel (p.eventID :: path) p a else a) := by
       funext a p; rw [ih]
     rw [mainlineIter_succ, mainlineIter_succ, hstep, h.find_eq]
 
@@ -46,8 +48,9 @@ theorem createMainline_mapEq {am am' : List Event} (h : MapEq am am') (pl : Opti
 
 /-- the inner loop of `firstMainline`, given that the recursive calls (one fuel unit less) agree -/
 theorem firstMainline_go_mapEq {am am' : List Event} (ml : List Event) (fuel : Nat)
-    (ih : ∀ e st, firstMainline am ml fuel e st = firstMainline am' ml fuel e st) (ps : List Event) (st : Nat × Nat) :
-    firstMainline.go am ml fuel ps st = firstMainline.go am' ml fuel ps st := by
+    (ih : ∀ path e st, firstMainline am ml fuel path e st = firstMainline am' ml fuel path e st) (path : List ID)
+    (ps : List Event) (st : Nat × Nat) :
+    firstMainline.go am ml fuel path ps st = firstMainline.go am' ml fuel path ps st := by
   induction ps generalizing st with
   | nil => simp only [firstMainline.go]
   | cons p rest ihp =>
@@ -56,15 +59,17 @@ theorem firstMainline_go_mapEq {am am' : List Event} (ml : List Event) (fuel : N
     · exact ihp st
     · split
       · rfl
-      · rw [ih, ihp]
+      · split
+        · exact ihp st
+        · rw [ih, ihp]
 
-theorem firstMainline_mapEq {am am' : List Event} (h : MapEq am am') (ml : List Event) (fuel : Nat) (e : Event)
-    (st : Nat × Nat) : firstMainline am ml fuel e st = firstMainline am' ml fuel e st := by
-  induction fuel generalizing e st with
+theorem firstMainline_mapEq {am am' : List Event} (h : MapEq am am') (ml : List Event) (fuel : Nat) (path : List ID)
+    (e : Event) (st : Nat × Nat) : firstMainline am ml fuel path e st = firstMainline am' ml fuel path e st := by
+  induction fuel generalizing path e st with
   | zero => simp only [firstMainline]
   | succ fuel ih =>
     rw [firstMainline.eq_2, firstMainline.eq_2, h.find_eq]
-    exact firstMainline_go_mapEq ml fuel ih _ st
+    exact firstMainline_go_mapEq ml fuel ih path _ st
 
 theorem otherKey_mapEq {am am' : List Event} (h : MapEq am am') (ml : List Event) (e : Event) :
     otherKey am ml e = otherKey am' ml e := by
